@@ -21,7 +21,7 @@ TRICKY = {
     "mysql": ["insert into t1 select 'a;b' as c1 from t2", "select `x;y` from t5", "insert into t6 select c1 # eol;comment\n from t7"],
     "tsql": ["insert into t1 select 'a;b' as c1 from t2", "select [x;y] from t5", "select c1 into t3 from t4", "update t1 set c1 = t2.c1 from t2 where t1.k = t2.k"],
 }
-TSQL_SEPS = ["\n", "\n\n", ";\n", " ;\n", "\n-- c;x\n", "\n/* a;b */\n"]
+TSQL_SEPS = ["\n", "\n\n", ";\n", " ;\n", "\n-- c;x\n", "\n/* a;b */\n", "\nGO\n", "\ngo\n\n", "\nGO\n-- next batch\n"]  # GO ends a batch
 
 
 def pieces_for(dialect):
@@ -53,7 +53,7 @@ def workload(tier, rnd):
     for i in range(n // 9):
         k = rnd.choice([1, 2, 3, 4])
         ps = [rnd.choice(tp) for _ in range(k)]
-        seps = [rnd.choice(["", "\n", "-- lead\n"])] + [rnd.choice(TSQL_SEPS) for _ in range(k - 1)] + [rnd.choice(["", "\n", ";", "\n-- tail"])]
+        seps = [rnd.choice(["", "\n", "-- lead\n", "GO\n"])] + [rnd.choice(TSQL_SEPS) for _ in range(k - 1)] + [rnd.choice(["", "\n", ";", "\n-- tail", "\nGO", "\nGO\n"])]
         jobs.append({"pieces": ps, "seps": seps, "dialect": "tsql", "config": {"TSQL_NO_SEMICOLON": True}, "mode": "tsql_no_semicolon", "order": _order(len(jobs))})
     return jobs
 
